@@ -5,7 +5,7 @@ from props.common import gen_strategy, quiet_logging, Violations
 from worlds.full import FullWorld
 
 ID = 'C42'
-TIERS = {'quick': {'runs': 3000, 'budget_s': 55, 'wall_cap': 120, 'block': 50},
+TIERS = {'quick': {'runs': 9000, 'budget_s': 55, 'wall_cap': 120, 'block': 50},
          'thorough': {'runs': 300000, 'budget_s': 840, 'wall_cap': 120, 'block': 50}}
 SHRINK_LISTS = ['steps']
 COVERAGE_RULE = ('one run = real Cluster/ControlConnection/Metadata against a fake cluster (Cassandra 3.11 peers or 4.0 peers_v2 '
